@@ -101,16 +101,15 @@ Definition cov1_get (arr : list Z) (g : Z) : gres :=
 (* closure of CoverageFormat2::get *)
 Definition range_cmp (g : Z) (r : rrec) : comparison :=
   let '(s, e, _) := r in if e <? g then Lt else if g <? s then Gt else Eq.
-(* CoverageFormat2::get: rec.start_coverage_index() + (gid - rec.start_glyph_id())   — u16 arithmetic
-   (the subtraction cannot underflow: the search returned Equal, so start <= gid).  [strict] =
-   overflow-checks profile (the addition panics above u16::MAX); otherwise it wraps.
-   (Before /repo commit 7d54c01 the expression was (ci + gid) - start, which panicked on valid tables:
-   finding "cov2-get-u16-add-overflow".) *)
+(* CoverageFormat2::get: rec.start_coverage_index().checked_add(gid - rec.start_glyph_id())   — u16 arithmetic
+   (the subtraction cannot underflow: the search returned Equal, so start <= gid); an index above u16::MAX
+   is "not covered" in both profiles (since /repo 9432562; before that the addition panicked under overflow
+   checks / wrapped, and before 7d54c01 it was (ci + gid) - start: finding "cov2-get-u16-add-overflow").
+   [strict] is kept for the statements; the outcome no longer depends on it. *)
 Definition cov2_get (strict : bool) (rs : list rrec) (g : Z) : gres :=
   match bsearch_by (fun i => range_cmp g (znth rs i (0, 0, 0))) (zlen rs) with
   | BOk i => let '(s, _, ci) := znth rs i (0, 0, 0) in
-             if strict && (65535 <? ci + (g - s)) then GPanic
-             else GSome (wrap16 (ci + (g - s)))
+             if 65535 <? ci + (g - s) then GNone else GSome (ci + (g - s))
   | BErr _ => GNone
   end.
 Definition cov_get (strict : bool) (c : cov) (g : Z) : gres :=
@@ -436,6 +435,45 @@ Definition cpp_lookup (gs : list cgroup) (x y : Z) : option (option V) := first_
 End ClassPairs.
 Arguments cgroup : clear implicits.
 
+(* ------------------------------------------------------------------------------------------ *)
+(* splitting.rs split_subtables at the lookup level: every subtable for which split_fn returned Some(pieces) is
+   replaced IN PLACE by its pieces; the count written in the lookup header is
+   `data.offsets.len() + new_subtables.values().map(|ids| ids.len() - 1).sum()` *)
+Definition split_all {T} (f : T -> option (list T)) (sts : list T) : list T :=
+  flat_map (fun s => match f s with Some ps => ps | None => [s] end) sts.
+Definition split_count {T} (f : T -> option (list T)) (sts : list T) : Z :=
+  zlen sts + fold_right Z.add 0 (map (fun s => match f s with Some ps => zlen ps - 1 | None => 0 end) sts).
+
+(* ------------------------------------------------------------------------------------------ *)
+(* gpos/builders.rs MarkToLigBuilder::insert_ligature on ONE ligature's component list
+   (Vec<BTreeMap<class, anchor>>; here class ids instead of class names).  None = panic (index out of bounds when a
+   call gives an anchor for a component beyond the length fixed by the first call). *)
+Section Lig.
+Context {A : Type}.
+Fixpoint comp_set (m : list (Z * A)) (cls : Z) (a : A) : list (Z * A) :=
+  match m with [] => [(cls, a)] | (k, v) :: r => if k =? cls then (k, a) :: r else (k, v) :: comp_set r cls a end.
+Fixpoint comp_get (m : list (Z * A)) (cls : Z) : option A :=
+  match m with [] => None | (k, v) :: r => if k =? cls then Some v else comp_get r cls end.
+(* `for (i, anchor) in components.into_iter().enumerate() { if let Some(anchor) = anchor { component_list[i].insert(class, anchor) } }` *)
+Fixpoint lig_apply (cl : list (list (Z * A))) (comps : list (option A)) (cls : Z) : option (list (list (Z * A))) :=
+  match comps with
+  | [] => Some cl
+  | oa :: cs =>
+      match cl with
+      | [] => match oa with Some _ => None | None => lig_apply [] cs cls end
+      | c :: r => option_map (cons (match oa with Some a => comp_set c cls a | None => c end)) (lig_apply r cs cls)
+      end
+  end.
+(* `if component_list.is_empty() { component_list.resize(components.len(), Default::default()) }` *)
+Definition lig_resize (cl : list (list (Z * A))) (n : nat) : list (list (Z * A)) :=
+  match cl with [] => repeat [] n | _ => cl end.
+Definition lig_insert (cl : list (list (Z * A))) (cls : Z) (comps : list (option A)) : option (list (list (Z * A))) :=
+  lig_apply (lig_resize cl (length comps)) comps cls.
+(* the anchor the compiled LigatureAttach holds for (component i, class cls) *)
+Definition lig_get (cl : list (list (Z * A))) (i : nat) (cls : Z) : option A :=
+  match nth_error cl i with Some c => comp_get c cls | None => None end.
+End Lig.
+
 Fixpoint list_eqb {T U} (eqb : T -> U -> bool) (a : list T) (b : list U) : bool :=
   match a, b with
   | [], [] => true
@@ -465,7 +503,12 @@ Inductive case :=
 | CPromote (before after : Z * Z * Z * Z) (promoted : bool) (ext_types : list Z)
   (* a sequence of PairPosBuilder::insert_classes calls (class1, class2) and, per class subtable the real builder
      produced (in order), its coverage glyphs and its class1 / class2 counts *)
-| CClassSeq (rules : list (list Z * list Z)) (subs : list (list Z * Z * Z)).
+| CClassSeq (rules : list (list Z * list Z)) (subs : list (list Z * Z * Z))
+  (* per input subtable of a lookup the number of compiled pieces (1 = not split), and the subtable count of the compiled lookup *)
+| CSplitCount (pieces : list Z) (declared : Z)
+  (* the insert_ligature calls for one ligature glyph (class, per component the anchor id or -1), the class count, and
+     the compiled LigatureAttach rows (component x class, anchor id or -1) *)
+| CLigSeq (calls : list (Z * list Z)) (ncls : Z) (rows : list (list Z)).
 
 Definition probes_ok (f : Z -> Z) (probes : list (Z * Z)) : bool :=
   forallb (fun p => f (fst p) =? snd p) probes.
@@ -530,6 +573,18 @@ Definition check_case (c : case) : bool :=
                   (* classdef2 keeps class 0 for "everything else" *)
                   && (zlen (cg_c2 g) + 1 =? snd o))
                gs subs
+  | CSplitCount pieces declared =>
+      let f (p : Z) := if 1 <? p then Some (repeat 0 (Z.to_nat p)) else None in
+      (split_count f pieces =? declared) && (zlen (split_all f pieces) =? declared)
+  | CLigSeq calls ncls rows =>
+      match fold_left (fun (acc : option (list (list (Z * Z)))) (c : Z * list Z) =>
+                         match acc with Some cl => lig_insert cl (fst c) (row_dec (snd c)) | None => None end)
+                      calls (Some []) with
+      | Some cl => list_eqb zlist_eqb
+                     (map (fun c => map (fun k => match comp_get c (Z.of_nat k) with Some a => a | None => -1 end) (seq 0 (Z.to_nat ncls))) cl)
+                     rows
+      | None => false
+      end
   | CPromote before after promoted ext_types =>
       let '(ty, fl, mfs, n) := before in
       let l := {| lk_type := ty; lk_flags := fl; lk_mfs := (if mfs <? 0 then None else Some mfs);
